@@ -57,7 +57,7 @@ def _validate(c):
             Implies(schema != Val.VNone, c.T.tr[n_check] == rec('usercall', schema, v))))
 
 
-@contract('Input._event_put', qual=Q + 'Input._event_put', modifies=('_output',), self_cls='Input')
+@contract('Input._event_put', qual=Q + 'Input._event_put', modifies=DELIVERY, self_cls='Input')
 def _input_put(c):
     me, v = c.z('self'), c.v('value')
     c.requires('valid', valid_validation(c.S, me))
@@ -109,7 +109,7 @@ def _input_init(c):
     c.ensures('initdef_valid', Or(c.post('initdef', me) == Val.Undef, acc(c.T, me, c.post('initdef', me))))
 
 
-@contract('Input.init_from_value', qual=Q + 'Input.init_from_value', modifies=('_output', '_event_active'), self_cls='Input')
+@contract('Input.init_from_value', qual=Q + 'Input.init_from_value', modifies=DELIVERY, self_cls='Input')
 def _input_ifv(c):
     me, v = c.z('self'), c.v('value')
     c.raises('DeliveryError', unchanged=False)
